@@ -4,6 +4,7 @@ package main
 // named obligations that snapshot a prefix of that list, and a solver portfolio.
 
 import (
+	"regexp"
 	"bytes"
 	"context"
 	"fmt"
@@ -17,24 +18,26 @@ import (
 )
 
 type Obligation struct {
-	Name     string // pkg.Recv.Func:kind[:label]
-	Func     string // function under contract this belongs to
-	Kind     string
-	Props    []string // property tags (empty = belongs to every property the function serves)
-	Prefix   int      // number of ctx items visible
-	Guard    string   // path condition
-	Goal     string
-	Ctx      *Ctx
-	Pos      string
-	Result   string // "unsat" (discharged), "sat", "unknown", "timeout"
-	Solver   string
-	TimeS    float64
-	Model    string
-	Expected string // "" normally; "sat" for cover checks
-	Bounded  string // non-empty: bounded obligation with this scope
-	Text     string // source text of the clause
-	Retried  bool
-	Alts     []AltGoal // pieces of the goal (each must be discharged) tried when the whole goal is not
+	Name      string // pkg.Recv.Func:kind[:label]
+	Func      string // function under contract this belongs to
+	Kind      string
+	Props     []string // property tags (empty = belongs to every property the function serves)
+	Prefix    int      // number of ctx items visible
+	Guard     string   // path condition
+	Goal      string
+	Ctx       *Ctx
+	Pos       string
+	Result    string // "unsat" (discharged), "sat", "unknown", "timeout"
+	Solver    string
+	TimeS     float64
+	Model     string
+	Expected  string // "" normally; "sat" for cover checks
+	Bounded   string // non-empty: bounded obligation with this scope
+	Text      string // source text of the clause
+	Retried   bool
+	Alts      []AltGoal // pieces of the goal (each must be discharged) tried when the whole goal is not
+	Focus     []string  // tag globs: labelled assumptions to keep in the focused attempt (nil: none)
+	useFocus  bool
 	FailedAlt string
 }
 
@@ -44,6 +47,7 @@ type AltGoal struct {
 }
 
 type Ctx struct {
+	tags   map[int]string // item index -> tag of a labelled assumption (see FocusSpec)
 	alts   map[int]string // item index -> variant for solvers without lambda support (cvc5)
 	items  []string
 	sorts  map[string]bool
@@ -176,6 +180,25 @@ func (c *Ctx) Assume(term string) {
 		return
 	}
 	c.items = append(c.items, fmt.Sprintf("(assert %s)", term))
+}
+
+// AssumeTagged: an assumption that a focused proof attempt may drop (tag names where it comes from).
+func (c *Ctx) AssumeTagged(tag, term string) {
+	if term == "true" {
+		return
+	}
+	if c.tags == nil {
+		c.tags = map[int]string{}
+	}
+	c.items = append(c.items, "; tag "+tag)
+	c.tags[len(c.items)] = tag
+	c.items = append(c.items, fmt.Sprintf("(assert %s)", term))
+}
+
+func globMatch(pat, s string) bool {
+	re := "^" + strings.ReplaceAll(regexp.QuoteMeta(pat), `\*`, ".*") + "$"
+	ok, _ := regexp.MatchString(re, s)
+	return ok
 }
 
 func (c *Ctx) Comment(s string) {
@@ -314,6 +337,23 @@ func (o *Obligation) Script(forSolver string, timeoutMs int, wantModel bool) str
 		}
 		items = cp
 	}
+	if o.useFocus && len(o.Ctx.tags) > 0 {
+		cp := make([]string, len(items))
+		copy(cp, items)
+		for i, tag := range o.Ctx.tags {
+			if i >= len(cp) {
+				continue
+			}
+			keep := false
+			for _, pat := range o.Focus {
+				keep = keep || globMatch(pat, tag)
+			}
+			if !keep {
+				cp[i] = "; dropped by focus: " + tag
+			}
+		}
+		items = cp
+	}
 	b.WriteString(relevantItems(items, o.Guard+" "+o.Goal))
 	fmt.Fprintf(&b, "; obligation %s\n", o.Name)
 	fmt.Fprintf(&b, "(assert (not %s))\n", implies(o.Guard, o.Goal))
@@ -427,29 +467,58 @@ func runSolver(sc SolverCfg, script string, dir string, name string, timeoutMs i
 // Solve discharges the obligation: the whole goal first; if that is not decided and the goal has pieces
 // (a universally quantified conjunction), every piece separately.
 func (o *Obligation) Solve(opts SolveOpts) {
-	o.solveGoal(opts)
-	if o.Result == "unsat" || o.Result == "sat" || len(o.Alts) == 0 || o.Expected != "" {
+	if len(o.Focus) > 0 && o.Expected == "" {
+		o.useFocus = true
+		o.solveGoal(opts)
+		o.useFocus = false
+		if o.Result == "unsat" {
+			o.Solver += "+focus"
+			return
+		}
+		o.Model = ""
+	}
+	if len(o.Alts) == 0 || o.Expected != "" {
+		o.solveGoal(opts)
+		return
+	}
+	// whole goal on a quarter of the budget, then the pieces, then the whole goal on the full budget
+	short := opts
+	short.TimeoutMs = opts.TimeoutMs / 4
+	if short.TimeoutMs < 1000 {
+		short.TimeoutMs = 1000
+	}
+	o.solveGoal(short)
+	if o.Result == "unsat" || o.Result == "sat" {
 		return
 	}
 	whole := o.Goal
-	wholeRes, wholeT := o.Result, o.TimeS
-	defer func() { o.Goal = whole }()
-	total := wholeT
+	total := o.TimeS
+	failed := ""
+	pieceRes := "unsat"
 	for _, a := range o.Alts {
 		o.Goal = a.Goal
 		o.Model = ""
 		o.solveGoal(opts)
 		total += o.TimeS
 		if o.Result != "unsat" {
-			o.FailedAlt = a.Text
-			if o.Result != "sat" {
-				o.Result = wholeRes
-			}
-			o.TimeS = total
-			return
+			failed, pieceRes = a.Text, o.Result
+			break
 		}
 	}
-	o.Result, o.Solver, o.TimeS = "unsat", o.Solver+"+split", total
+	o.Goal = whole
+	if failed == "" {
+		o.Result, o.Solver, o.TimeS = "unsat", o.Solver+"+split", total
+		return
+	}
+	o.Model = ""
+	o.solveGoal(opts)
+	o.TimeS += total
+	if o.Result != "unsat" && o.Result != "sat" {
+		o.FailedAlt = failed
+		if pieceRes == "sat" {
+			o.Result = "sat"
+		}
+	}
 }
 
 // solveGoal runs the portfolio on the current goal: first unsat wins.
